@@ -6,6 +6,8 @@ from typing import Any, Dict, List, Optional
 
 import z3
 
+from .loadscale import scaled
+
 _CUR: List[Any] = [None]
 
 
@@ -81,7 +83,7 @@ class Ctx:
         self.stats = PathStats()
         self.enc = Encoder(self, 'over')
         self.solver = z3.Solver()
-        self.solver.set('timeout', int(opts.get('decide_timeout_ms', 3000)))
+        self.solver.set('timeout', scaled(opts.get('decide_timeout_ms', 3000)))
         self._n_side = 0
         self.counter = 0
         self.depth_limit = opts.get('depth_limit', 400)
